@@ -102,7 +102,7 @@ MODEL_MUTANTS = [
     ('FrameIndex.tla', None, None, 'FrameIndex.tla', 'MC_FrameIndex_quick.cfg', 'SpacingTruthful'),     # Wrap = 256 in the cfg
     ('FrameIndex.tla', 'IF ~s[n].set /\\ x.has THEN', 'IF (~s[n].set \\/ s[n].v = 0) /\\ x.has THEN', 'FrameIndex.tla', 'MC_FrameIndex_quick.cfg', 'UserValueKept'),
     ('DlisModel.tla', 'IF i \\in mine /\\ items[i].origin = NoOrigin', 'IF items[i].origin = NoOrigin', 'DlisModel.tla', 'MC_DlisModel_quick.cfg', 'OriginResolves'),
-    ('DlisModel.tla', 'ELSE reg\' = reg1 /\\ items\' = items', 'ELSE reg\' = reg1 /\\ items\' = Append(items, it)', 'DlisModel.tla', 'MC_DlisModel_quick.cfg', 'RejectedIsNoOp'),
+    ('DlisModel.tla', 'ELSE reg\' = reg1 /\\ items\' = items /\\ view\' = view', 'ELSE reg\' = reg1 /\\ items\' = items /\\ view\' = ViewWith(lf, key)', 'DlisModel.tla', 'MC_DlisModel_quick.cfg', 'RejectedIsNoOp'),
     ('DlisModel.tla', 'hc\' = [flag |-> hc.stack[Len(hc.stack)], stack', 'hc\' = [flag |-> (IF byexc THEN TRUE ELSE hc.stack[Len(hc.stack)]), stack', 'DlisModel.tla', 'MC_DlisModel_quick.cfg', 'FlagDiscipline'),
     ('DlisModel.tla', 'Announced == SumLen(view)', 'Announced == Len(items)', 'DlisModel.tla', 'MC_DlisModel_quick.cfg', 'ProgressTotalCovers'),
     ('DataSource.tla', 'ChunkRows(start, stop) == [k \\in 1..(stop - start) |-> from + start + k - 1]',
